@@ -327,18 +327,21 @@ def optStep (t : Tool) (k : List Tok → St → Out) (toks : List Tok) (st : St)
 /-- how many strings precede the next option string -/
 def nonO (toks : List Tok) : Nat := (toks.takeWhile (fun x => !x.isO)).length
 
-/-- the main loop of `_parse_known_args` on the strings that remain -/
+/-- one round of the main loop of `_parse_known_args` on the strings that remain; `k` is the rest of the run -/
+def loopBody (t : Tool) (k : List Tok → St → Out) (toks : List Tok) (st : St) : Out :=
+  if !toks.any Tok.isO then finalPhase t toks st
+  else if nonO toks > 0 then
+    match consumePos st toks with
+    | .error o => o.out
+    | .ok (st', c) =>
+      if c > 0 then k (toks.drop c) st'
+      else optStep t k (toks.drop (nonO toks)) { st' with extras := st'.extras ++ (toks.take (nonO toks)).map Tok.str }
+  else optStep t k toks st
+
+/-- the main loop: at most `fuel` rounds (every round consumes a string; `parseKnown` gives one more than there are strings) -/
 def loop (t : Tool) : Nat → List Tok → St → Out
   | 0, _, _ => .error
-  | fuel + 1, toks, st =>
-    if !toks.any Tok.isO then finalPhase t toks st
-    else if nonO toks > 0 then
-      match consumePos st toks with
-      | .error o => o.out
-      | .ok (st', c) =>
-        if c > 0 then loop t fuel (toks.drop c) st'
-        else optStep t (loop t fuel) (toks.drop (nonO toks)) { st' with extras := st'.extras ++ (toks.take (nonO toks)).map Tok.str }
-    else optStep t (loop t fuel) toks st
+  | fuel + 1, toks, st => loopBody t (loop t fuel) toks st
 
 /-- the namespace before parsing: every destination with its default -/
 def initNs (t : Tool) : List (Str × Val) :=
@@ -361,6 +364,12 @@ def parseKnown (t : Tool) (argv : List Str) : Out :=
 def eosWord : Str := [45, 45, 69, 79, 83]
 def sourcesDest : Str := [115, 111, 117, 114, 99, 101, 115]
 
+/-- `args.sources` as the parser filled it -/
+def oldSources (ns : List (Str × Val)) : List Str :=
+  match ns.find? (fun p => p.1 == sourcesDest) with
+  | some (_, .list l) => l
+  | _ => []
+
 /-- the arguments a tool's `run()` works with: `parse_args()` refuses anything unrecognised; the disk
     archivers refuse every unrecognised string that starts with '-' other than `--eos` (any letter
     case) and append the rest to the sources -/
@@ -372,10 +381,7 @@ def cliParse (t : Tool) (argv : List Str) : Out :=
      | .knownThenEosFilter =>
        if extras.any (fun e => e.head? == some dash && upper e != eosWord) then .error
        else
-         let old := match ns.find? (fun p => p.1 == sourcesDest) with
-           | some (_, .list l) => l
-           | _ => []
-         .ok (setNs ns sourcesDest (.list (old ++ extras))) []
+         .ok (setNs ns sourcesDest (.list (oldSources ns ++ extras))) []
      | .other => .error)
   | o => o
 
